@@ -217,6 +217,7 @@ class Ctx:
         self.exhaustive = True
         self.bounds = {}
         self.distinct_keys = set()
+        self.write_evidence = True
 
     # -- model side ------------------------------------------------------------------------
     def tlc(self, module, cfg, name=None, must_hold=True, require_actions=(), count=True, **kw):
@@ -303,9 +304,10 @@ class Ctx:
             'wall_s': round(time.time() - self.t0, 2),
             'violations': len(printed),
         }
-        os.makedirs(os.path.join(VERIF, 'evidence'), exist_ok=True)
-        with open(os.path.join(VERIF, 'evidence', self.prop + '.json'), 'w') as f:
-            json.dump(ev, f, indent=1, default=str)
+        if self.write_evidence:
+            os.makedirs(os.path.join(VERIF, 'evidence'), exist_ok=True)
+            with open(os.path.join(VERIF, 'evidence', self.prop + '.json'), 'w') as f:
+                json.dump(ev, f, indent=1, default=str)
         if self.states < 1 or self.transitions < 1:
             raise Machinery('no states explored')
         print('%s tier=%s: %d states, %d behaviours bound to prysm, %d known finding(s), %d violation signature(s), %.1fs'
@@ -330,6 +332,14 @@ def main_check(prop, run, argv):
     a = ap.parse_args(argv)
     seed = int(os.environ.get('VERIF_SEED', '0') or 0)
     ctx = Ctx(prop, a.tier, seed)
+    if a.replay:
+        ctx.write_evidence = False      # a replay re-examines one recorded case; it is not a coverage run
+    else:
+        rdir = os.path.join(VERIF, 'evidence', 'replay')
+        if os.path.isdir(rdir):
+            for fn in os.listdir(rdir):
+                if fn.startswith(prop + '_'):
+                    os.unlink(os.path.join(rdir, fn))
     try:
         prysm_env()
         run(ctx, replay=a.replay, selftest=a.selftest)
